@@ -79,26 +79,37 @@ package k8s
 //@         pts(pc.PassConns, q, n) == (old(pts(pc.PassConns, q, n)) || (old(pts(newAdminPolicyConns.PassConns, q, n))
 //@               && !old(pts(pc.AllowedConns, q, n)) && !old(pts(pc.DeniedConns, q, n))))
 //@   ensures [C02] disj: disjPC(pc)
-//@   after call 2:
+//@   at call 1,2,3,4,5,6,7,8,9 use: wf, pts, others
+//@   after call 2 cut:
+//@     assert w2: wfPC(pc) && wfPC(newAdminPolicyConns) && sepPCPC(pc, newAdminPolicyConns) && pc.AllowedConns == old(pc.AllowedConns) && pc.DeniedConns == old(pc.DeniedConns) && pc.PassConns == old(pc.PassConns)
+//@         && newAdminPolicyConns.AllowedConns == old(newAdminPolicyConns.AllowedConns) && newAdminPolicyConns.DeniedConns == old(newAdminPolicyConns.DeniedConns) && newAdminPolicyConns.PassConns == old(newAdminPolicyConns.PassConns)
 //@     assert s2: samePts(pc.AllowedConns) && samePts(pc.DeniedConns) && samePts(pc.PassConns)
 //@         && samePts(newAdminPolicyConns.AllowedConns) && samePts(newAdminPolicyConns.PassConns)
 //@         && ptsMinus2(newAdminPolicyConns.DeniedConns, pc.AllowedConns, pc.PassConns)
-//@   after call 4:
+//@   after call 4 cut:
+//@     assert w4: wfPC(pc) && wfPC(newAdminPolicyConns) && sepPCPC(pc, newAdminPolicyConns) && pc.AllowedConns == old(pc.AllowedConns) && pc.DeniedConns == old(pc.DeniedConns) && pc.PassConns == old(pc.PassConns)
+//@         && newAdminPolicyConns.AllowedConns == old(newAdminPolicyConns.AllowedConns) && newAdminPolicyConns.DeniedConns == old(newAdminPolicyConns.DeniedConns) && newAdminPolicyConns.PassConns == old(newAdminPolicyConns.PassConns)
 //@     assert s4: samePts(pc.AllowedConns) && samePts(pc.DeniedConns) && samePts(pc.PassConns)
 //@         && samePts(newAdminPolicyConns.PassConns)
 //@         && ptsMinus2(newAdminPolicyConns.DeniedConns, pc.AllowedConns, pc.PassConns)
 //@         && ptsMinus2(newAdminPolicyConns.AllowedConns, pc.DeniedConns, pc.PassConns)
-//@   after call 6:
+//@   after call 6 cut:
+//@     assert w6: wfPC(pc) && wfPC(newAdminPolicyConns) && sepPCPC(pc, newAdminPolicyConns) && pc.AllowedConns == old(pc.AllowedConns) && pc.DeniedConns == old(pc.DeniedConns) && pc.PassConns == old(pc.PassConns)
+//@         && newAdminPolicyConns.AllowedConns == old(newAdminPolicyConns.AllowedConns) && newAdminPolicyConns.DeniedConns == old(newAdminPolicyConns.DeniedConns) && newAdminPolicyConns.PassConns == old(newAdminPolicyConns.PassConns)
 //@     assert s6: samePts(pc.AllowedConns) && samePts(pc.DeniedConns) && samePts(pc.PassConns)
 //@         && ptsMinus2(newAdminPolicyConns.DeniedConns, pc.AllowedConns, pc.PassConns)
 //@         && ptsMinus2(newAdminPolicyConns.AllowedConns, pc.DeniedConns, pc.PassConns)
 //@         && ptsMinus2(newAdminPolicyConns.PassConns, pc.DeniedConns, pc.AllowedConns)
-//@   after call 7:
+//@   after call 7 cut:
+//@     assert w7: wfPC(pc) && wfPC(newAdminPolicyConns) && sepPCPC(pc, newAdminPolicyConns) && pc.AllowedConns == old(pc.AllowedConns) && pc.DeniedConns == old(pc.DeniedConns) && pc.PassConns == old(pc.PassConns)
+//@         && newAdminPolicyConns.AllowedConns == old(newAdminPolicyConns.AllowedConns) && newAdminPolicyConns.DeniedConns == old(newAdminPolicyConns.DeniedConns) && newAdminPolicyConns.PassConns == old(newAdminPolicyConns.PassConns)
 //@     assert s7: samePts(pc.AllowedConns) && samePts(pc.PassConns)
 //@         && ptsPlusMinus2(pc.DeniedConns, newAdminPolicyConns.DeniedConns, pc.AllowedConns, pc.PassConns)
 //@         && ptsMinus2(newAdminPolicyConns.AllowedConns, pc.DeniedConns, pc.PassConns)
 //@         && ptsMinus2(newAdminPolicyConns.PassConns, pc.DeniedConns, pc.AllowedConns)
-//@   after call 8:
+//@   after call 8 cut:
+//@     assert w8: wfPC(pc) && wfPC(newAdminPolicyConns) && sepPCPC(pc, newAdminPolicyConns) && pc.AllowedConns == old(pc.AllowedConns) && pc.DeniedConns == old(pc.DeniedConns) && pc.PassConns == old(pc.PassConns)
+//@         && newAdminPolicyConns.AllowedConns == old(newAdminPolicyConns.AllowedConns) && newAdminPolicyConns.DeniedConns == old(newAdminPolicyConns.DeniedConns) && newAdminPolicyConns.PassConns == old(newAdminPolicyConns.PassConns)
 //@     assert s8: samePts(pc.PassConns)
 //@         && ptsPlusMinus2(pc.DeniedConns, newAdminPolicyConns.DeniedConns, pc.AllowedConns, pc.PassConns)
 //@         && ptsPlusMinus2(pc.AllowedConns, newAdminPolicyConns.AllowedConns, pc.DeniedConns, pc.PassConns)
